@@ -129,6 +129,10 @@ void preprocess_verif_sem_post(void *sem) {
   if (tls_tid < 0) { std::lock_guard<std::mutex> lk(G.mu); ++G.count[G.sem_index(sem)]; return; }
   park(K_POST, sem, sem_tag("P", sem));
 }
+void preprocess_verif_sem_posted(void *) {
+  if (!G.active || tls_tid < 0 || !G.fine) return;
+  park(K_YIELD, 0, "yposted");
+}
 void preprocess_verif_mutex_lock(void *m) {
   if (!G.active || tls_tid < 0 || !G.fine) return;
   int id;
